@@ -23,7 +23,7 @@ ASSUMPTIONS = dipkit.DIP_STUB_TEXT + [
     "format expressions and string options are concrete (regex engine is C-level)",
 ]
 OUTSIDE = ['values inside the tolerance band (neither demanded accepted nor rejected)', 'conditions on array-valued nodes', 'option lists given by reference']
-BOUNDS = {'quick': 'float/int/str nodes x {per-line options, !options lists} x {same unit, other unit} x 0..2 modifications; conditions with < <= > >= == != and && of two; dimension bounds 1-D and 2-D',
+BOUNDS = {'quick': 'float/int/str nodes x {per-line options, !options lists} x {same unit, other unit} x 0..2 modifications; conditions with < <= > >= == != and && of two; conditions mixing && || and ==; conditions on another node that is modified afterwards (one / two parses); dimension bounds 1-D and 2-D; 75 concrete string / option / format / combination cases (tiny magnitudes, empty text, custom units, imported copies)',
           'thorough': 'same, more unit pairs and 3-option sets'}
 EXHAUSTIVE = {'quick': True, 'thorough': True}
 PRE = dipkit.DIP_SRC + unitkit.REF_SRC + '''
